@@ -252,6 +252,10 @@ func carriesBytes(t types.Type, d int) bool {
 
 const lblKey = "keybytes"
 
+// lblKeyData marks every value computed from the keys, integers and (through control
+// dependence) decisions included; unlike keybytes it is never stripped by type.
+const lblKeyData = "keydata"
+
 // filter drops the keybytes label unless the type can carry key material.
 func filter(l lset, t types.Type) lset {
 	if !l[lblKey] || carriesBytes(t, 0) {
